@@ -184,6 +184,14 @@ class Mutants(Suite):
                     break
             fh, _ = c02.build_image(c)
             out["vmdk_" + kind] = ({o: b for o, b in fh._chunks}, fh.size, fh.salt)
+        # a stream-optimised (compressed) extent whose grains span several sectors: truncated inside a grain, the
+        # reader must raise or return short, not wait for bytes that never come
+        for _ in range(2000):
+            c = c02.gen_sparse(rng, "quick", "hosted")
+            if (c["flags"] & c02.F_COMPRESSED) and c.get("cgrains") and not c["huge"] and c["fsize"] < 8 * MB:
+                break
+        fh, _ = c02.build_image(c)
+        out["vmdk_stream"] = ({o: b for o, b in fh._chunks}, fh.size, fh.salt)
         for fn, key in (("test.vmcx", "hyperv_vmcx"), ("test.VMRS", "hyperv_vmrs"), ("local.tgz.ve", "envelope")):
             buf = open(os.path.join(DATA, fn), "rb").read()
             out[key] = ({0: buf}, len(buf), None)
@@ -221,13 +229,21 @@ class Mutants(Suite):
                 grid |= {o - 1, o, o + 1, o + len(b) - 1, o + len(b), o + len(b) + 1}
             for t in sorted(g for g in grid if 0 <= g < fsize)[:40]:
                 muts.append(["trunc", t])
+            must = [["none"]]
+            if name == "vmdk_stream":
+                # inside every multi-sector chunk (a compressed grain record): just past its first sector, in the middle,
+                # two bytes before its end
+                for o, b in chunks.items():
+                    if len(b) > 600:
+                        must += [["trunc", t] for t in (o + 513, o + len(b) // 2, o + len(b) - 2) if 0 < t < fsize]
+                must = must[:40]
             # random corruption
             offs = [o + i for o, b in chunks.items() for i in range(0, min(len(b), 4096))]
             for _ in range(per_base // 5):
                 k = rng.randint(1, 8)
                 muts.append(["corrupt", [[rng.pick(offs), rng.randrange(256)] for _ in range(k)]])
             rng.shuffle(muts)
-            for m in muts[:per_base]:
+            for m in must[1:] + muts[:per_base]:
                 cases.append({"base": base, "mut": m})
         return cases
 
